@@ -27,6 +27,7 @@ import uuid
 import warnings
 import weakref
 from contextlib import AbstractContextManager, contextmanager
+from copy import deepcopy
 from gc import collect
 from getpass import getuser
 from io import BytesIO
@@ -263,6 +264,10 @@ class Workspace(AbstractContextManager):
 
         if entity_kwargs is None:
             return None
+
+        # do not share the (mutable, edited in place) metadata dictionary with the source
+        if isinstance(entity_kwargs.get("metadata"), dict):
+            entity_kwargs["metadata"] = deepcopy(entity_kwargs["metadata"])
 
         entity_type_kwargs = get_attributes(
             entity.entity_type,
